@@ -280,14 +280,15 @@ Definition oout_eqb (a b : oout) : bool :=
   | OErr k, OErr k' => kind_eqb k k'
   | _, _ => false
   end.
-Inductive hop := HV (o : vop) | HF (o : fop).
+Inductive hop := HV (o : vop) | HF (o : fop) | HE (i : N) (o : fop).
 (* runner/main.ml hist: the operation goes to the innermost container reached through the last fields *)
 Definition hstep (t : ty) (a : N) (o : hop) (cur : bytes) : bytes * oout :=
   match tail_container t (clean cur), o with
   | Some (_, TFlex _ _), HF fo => nested_flex_op (Some 256) t a fo cur
+  | Some (_, TFlex _ _), HE i fo => nested_flex_edit_flex (Some 256) t a i fo cur
   | Some (_, TFlex _ _), HV _ => (cur, OBad)
   | Some _, HV vo => nested_vec_op (Some 256) t vo cur
-  | Some _, HF _ => (cur, OBad)
+  | Some _, HF _ | Some _, HE _ _ => (cur, OBad)
   | None, _ => (cur, OBad)
   end.
 (* expected: per step (buffer, outcome); true when every listed step agrees *)
@@ -355,7 +356,7 @@ def coq_oout(s):
 
 
 def is_flex_history(ops):
-    return any(o[0] in ('editvec', 'editassign') for o in ops)
+    return any(o[0] in ('editvec', 'editassign', 'editflex') for o in ops)
 
 
 def build_hist(shapes_sexp, tail_is_flex, cases, mres, n_sample, seed):
@@ -387,7 +388,10 @@ def build_hist(shapes_sexp, tail_is_flex, cases, mres, n_sample, seed):
                 for o, mp in zip(parts[1:], mparts[1:]):
                     kv = dict(re.findall(r'(?:^| )([a-z]+)=(\S+)', mp))
                     ox = parse(tokenize(o))[0]
-                    op = ('HF %s' % coq_fop(ox)) if tail_is_flex[sid] else ('HV %s' % coq_vop(ox))
+                    if ox[0] == 'editflex':
+                        op = 'HE %d %s' % (num(ox[1]), coq_fop(ox[2]))
+                    else:
+                        op = ('HF %s' % coq_fop(ox)) if tail_is_flex[sid] else ('HV %s' % coq_vop(ox))
                     steps.append('(%s, (%s, %s))' % (op, coq_bytes(kv['buf']), coq_oout(kv['res'])))
                 c = ('let r := emplace (Some 256) ty_%s %s %s %s in list_eqb N.eqb (fst r) %s && hrun ty_%s %s (fst r) [%s]'
                      % (sid, ini, off, coq_bytes(f[4]), coq_bytes(h0['buf']), sid, off, ';'.join(steps)))
@@ -471,13 +475,13 @@ Definition wev_eqb (a b : wev) : bool :=
 Definition vf (t : ty) := fun a bs => validate t a (clean bs).
 Definition sf (t : ty) := fun bs => size_m t (clean bs).
 Definition ef (t : ty) := fun i a buf => emplace (Some 256) t i a buf.
-Definition recv_check (t : ty) (mml : N) (st : bytes) (sc : list rdir) (nrecv : nat) (limit : N) (xs : list xrout) (calls : N) : bool :=
-  let r := recv_many (vf t) (sf t) nrecv limit (new_buffer (io_capacity (min_size t) mml) 0)
+Definition recv_check (t : ty) (cap : N) (st : bytes) (sc : list rdir) (nrecv : nat) (limit : N) (xs : list xrout) (calls : N) : bool :=
+  let r := recv_many (vf t) (sf t) nrecv limit (new_buffer cap 0)
              {| stream := st; rscript := sc; rcalls := 0 |} in
   routs_match t (fst r) xs && (rcalls (snd r) =? calls).
-Definition arecv_check (t : ty) (mml : N) (st : bytes) (sc : list rdir) (nrecv fuel : nat) (limit : N) (xs : list xrout)
+Definition arecv_check (t : ty) (cap : N) (st : bytes) (sc : list rdir) (nrecv fuel : nat) (limit : N) (xs : list xrout)
                        (calls polls : N) : bool :=
-  let r := arecv_many (vf t) (sf t) nrecv fuel limit 0 false (new_buffer (io_capacity (min_size t) mml) 0)
+  let r := arecv_many (vf t) (sf t) nrecv fuel limit 0 false (new_buffer cap 0)
              {| stream := st; rscript := sc; rcalls := 0 |} in
   routs_match t (fst (fst r)) xs && (rcalls (snd (fst r)) =? calls) && (snd r =? polls).
 Definition send_check (t : ty) (mml : N) (ws : list wdir) (is : list init) (limit : N) (xs : list sout) (snk : bytes) (calls : N) : bool :=
@@ -571,6 +575,8 @@ def build_io(shapes_sexp, cases, mres, n_sample, seed):
         try:
             if kind in ('recv', 'arecv'):
                 mml, stream, rscript, nrecv = args[0], args[1], args[2], int(args[3])
+                # `c<n>`: a receiver over IoBuffer::new(pipe, n, ALIGN); otherwise Receiver::io(pipe, max_msg_len)
+                mml = mml[1:] if mml.startswith('c') else '(io_capacity (min_size %s) %s)' % (ty, mml)
                 sc = [coq_rdir(x) for x in script_toks(rscript)]
                 nstream = 0 if stream == '-' else len(stream) // 2
                 limit = nstream + len(sc) + 2 * nrecv + 16
